@@ -83,11 +83,13 @@ pub fn fail(sig: impl Into<String>, what: impl Into<String>) -> Sexp {
 pub mod c11;
 pub mod instr_io;
 pub mod c03;
+pub mod c16;
 
 pub fn all() -> Vec<Box<dyn Prop>> {
     vec![
         Box::new(c11::C11),
         Box::new(c03::C03),
+        Box::new(c16::C16),
     ]
 }
 
